@@ -11,12 +11,13 @@ import (
 )
 
 func init() {
-	Explanations["C11"] = "Decides structural necessary conditions of 'a Byzantine peer cannot corrupt or crash an honest syncer' in package syncer: (R1) the pre-validated entry ChainManager.AddValidatedV2Blocks is called only on the true edge of the require-height predicate that the fetching worker also branches on; in that worker every state appended to the response was produced by consensus.ApplyBlock directly after consensus.ValidateBlock succeeded for the same block and state variable, the starting state is the result of SendCheckpoint advanced over the checkpoint block, and every exit reachable from a failed validation returns a response without blocks; (R2) SendCheckpoint can return a nil error only through the passing sides of the three checkpoint checks (v2 block with one payout, id equals the requested id, commitment equals State.Commitment(...)), SendHeaders only after every header passed ValidateHeader against the running state, and below the require height blocks are kept only after the per-block id comparison with the validated headers; (R3) in the header/outline relay handlers relaying and AddBlocks lie behind the work test and the attach test; (R4) the two RPC dispatch functions (syncer and rhp server) register a recover before dispatching; (R5) each of the seven provable-misbehaviour edges reaches the ban function, which itself cannot return success without reporting the peer to the peer store. NOT decided: liveness (still syncs, no stall), goroutines without recover (sync workers), soundness of core's validation."
+	Explanations["C11"] = "Decides structural necessary conditions of 'a Byzantine peer cannot corrupt or crash an honest syncer' in package syncer: (R1) the pre-validated entry ChainManager.AddValidatedV2Blocks is called only on the true edge of the require-height predicate that the fetching worker also branches on; in that worker every state appended to the response was produced by consensus.ApplyBlock directly after consensus.ValidateBlock succeeded for the same block and state variable, the starting state is the result of SendCheckpoint advanced over the checkpoint block, and every exit reachable from a failed validation returns a response without blocks; (R2) SendCheckpoint can return a nil error only through the passing sides of the three checkpoint checks (v2 block with one payout, id equals the requested id, commitment equals State.Commitment(...)), SendHeaders only after every header passed ValidateHeader against the running state, and below the require height blocks are kept only after the per-block id comparison with the validated headers; (R3) in the header/outline relay handlers relaying and AddBlocks lie behind the work test and the attach test; (R4) the two RPC dispatch functions (syncer and rhp server) register a recover before dispatching; (R5) each of the seven provable-misbehaviour edges reaches the ban function, which itself cannot return success without reporting the peer to the peer store. (R6) every positional access X[c] / X[len(X)-k] of a slice in package syncer is reached only through the adequate side of a test of len(X), so a short or empty list from a peer cannot make an index go out of range in code that runs without a recover. NOT decided: liveness (still syncs, no stall), goroutines without recover (sync workers), soundness of core's validation."
 
 	register(&Rule{ID: "C11.R1", Prop: "C11", Floor: 4, Doc: "the pre-validated entry is fenced: same predicate in worker and finisher, states only after ValidateBlock, checkpoint-derived start", Run: c11r1})
 	register(&Rule{ID: "C11.R2", Prop: "C11", Floor: 5, Doc: "checkpoint, header and block-id checks guard every success exit of the fetch helpers", Run: c11r2})
 	register(&Rule{ID: "C11.R3", Prop: "C11", Floor: 3, Doc: "relay handlers act only after the work and attach tests", Run: c11r3})
 	register(&Rule{ID: "C11.R4", Prop: "C11", Floor: 2, Doc: "RPC dispatchers recover from handler panics", Run: c11r4})
+	register(&Rule{ID: "C11.R6", Prop: "C11", Floor: 4, Doc: "first/last-element accesses of (peer-supplied) lists only after a test of the list's length", Run: c11r6})
 	register(&Rule{ID: "C11.R5", Prop: "C11", Floor: 8, Doc: "provable misbehaviour reaches ban, and ban reports to the peer store", Run: c11r5})
 }
 
@@ -893,6 +894,106 @@ func c11r5(c *Ctx) {
 		}
 		if !bad {
 			ob.OK("every success return follows PeerStore.Ban(peer address)")
+		}
+	}
+}
+
+// c11r6: positional accesses of slices in package syncer. `X[len(X)-k]` and
+// `X[c]` panic when X is shorter than expected, and what reaches these sites
+// are lists a peer supplied (blocks of a batch, headers, payouts of a
+// checkpoint block); the sync workers run without a recover. Each such access
+// must be reached only through the adequate side of a test of len(X).
+func c11r6(c *Ctx) {
+	for _, f := range c.P.Funcs {
+		if f.Pkg.PkgPath != ir.PkgPath("syncer") {
+			continue
+		}
+		g := f.Graph()
+		visited := false
+		for _, n := range g.Nodes {
+			if n.AST == nil {
+				continue
+			}
+			ir.Walk(n.AST, false, func(x ast.Node) {
+				ix, ok := x.(*ast.IndexExpr)
+				if !ok {
+					return
+				}
+				if _, isSlice := f.TypeOf(ix.X).Underlying().(*types.Slice); !isSlice {
+					return
+				}
+				positional := false
+				if _, isConst := f.ConstInt(ix.Index); isConst {
+					positional = true
+				} else if be, ok := ast.Unparen(ix.Index).(*ast.BinaryExpr); ok && be.Op == token.SUB {
+					if lx := lenOf(f, be.X); lx != nil && sameLvalue(f, lx, ix.X) {
+						positional = true
+					}
+				}
+				if !positional {
+					return
+				}
+				if !visited {
+					c.VisitGraph(f)
+					visited = true
+				}
+				ob := c.Ob(f, "positional-index-after-length-test", ix.Pos())
+				var edges []*cfgx.Edge
+				for _, m := range g.Nodes {
+					if m.AST == nil || m.Block == nil || m.Block.Cond != m.AST || len(m.Succs) != 2 {
+						continue
+					}
+					be, ok := ast.Unparen(m.AST.(ast.Expr)).(*ast.BinaryExpr)
+					if !ok {
+						continue
+					}
+					isLen := func(e ast.Expr) bool {
+						e = ast.Unparen(e)
+						if call, ok := e.(*ast.CallExpr); ok && len(call.Args) == 1 {
+							if tv, ok := f.Info().Types[call.Fun]; ok && tv.IsType() {
+								e = ast.Unparen(call.Args[0]) // uint64(len(X))
+							}
+						}
+						lx := lenOf(f, e)
+						return lx != nil && sameLvalue(f, lx, ix.X)
+					}
+					lenLeft, lenRight := isLen(be.X), isLen(be.Y)
+					if !lenLeft && !lenRight {
+						continue
+					}
+					op := be.Op
+					if lenRight && !lenLeft {
+						switch op {
+						case token.LSS:
+							op = token.GTR
+						case token.LEQ:
+							op = token.GEQ
+						case token.GTR:
+							op = token.LSS
+						case token.GEQ:
+							op = token.LEQ
+						}
+					}
+					switch op {
+					case token.NEQ, token.LSS, token.LEQ:
+						// len != n / len < n / len <= n: the list is as long as expected on the false side
+						edges = append(edges, m.Succs[1])
+					case token.EQL:
+						other := be.Y
+						if lenRight && !lenLeft {
+							other = be.X
+						}
+						if v, ok := f.ConstInt(other); ok && v == 0 {
+							edges = append(edges, m.Succs[1]) // len == 0: non-empty on the false side
+						} else {
+							edges = append(edges, m.Succs[0])
+						}
+					case token.GTR, token.GEQ:
+						edges = append(edges, m.Succs[0])
+					}
+				}
+				ob.Check(len(edges) > 0 && f.OnlyVia(n, edges), nil, "%s is evaluated at %s on a path that did not pass a test of the list's length: a peer that sends a shorter (or empty) list makes the index go out of range, and the sync workers do not recover from panics", ir.ExprString(ix), c.P.Pos(ix.Pos()))
+			})
 		}
 	}
 }
